@@ -47,6 +47,25 @@ theorem specSegs_eq (N : Nat) :
   rw [List.range_eq_range']
   rfl
 
+/-- the padded lengths of the segments from `k` on add up to the padded rest -/
+theorem outLen_segs (N : Nat) : ∀ d k,
+    k + d = (N + (packageEncryptionChunkSize - 1)) / packageEncryptionChunkSize →
+    outLen ((List.range' k d).map (segOf N)) = pad16 (N - packageEncryptionChunkSize * k) := by
+  intro d
+  induction d with
+  | zero =>
+    intro k hk
+    simp only [packageEncryptionChunkSize] at *
+    simp only [List.range'_zero, List.map_nil, outLen, pad16]
+    omega
+  | succ m ih =>
+    intro k hk
+    have hrec := ih (k + 1) (by omega)
+    simp only [packageEncryptionChunkSize] at *
+    simp only [List.range'_succ, List.map_cons, outLen, segOf, packageEncryptionChunkSize, packageOffset, hrec]
+    simp only [pad16]
+    omega
+
 /-! ### agile data flow -/
 
 /-- what the abstract CBC cipher is assumed to satisfy: for every IV index it is a length-preserving
